@@ -15,7 +15,7 @@ from __future__ import annotations
 import array
 import io
 
-from kit.h import P, run, mark, known, concretize
+from kit.h import P, run, mark, known, concretize, decode_point
 from kit import net as N
 from kit import env as E
 
@@ -129,12 +129,8 @@ class Collect(N.BaseHandler):
 
 
 def _frame_body(kind, text, i, j, offset, blocksize, mi, chunked, framing_hdr, cv):
-    kind = concretize(kind)
-    text = concretize(text)
-    i, j, offset, blocksize, mi, framing_hdr, cv = [concretize(v) for v in (i, j, offset, blocksize, mi, framing_hdr, cv)]
-    chunked = concretize(chunked)
     method = METHODS[mi]
-    body, want = N._untraced(make_body)(kind, text, i, j, offset)      # concrete arguments: real objects, built natively
+    body, want = make_body(kind, text, i, j, offset)
     netw = N.install(Collect())
     try:
         conn = HTTPConnection("h", 80, blocksize=blocksize)
@@ -149,8 +145,7 @@ def _frame_body(kind, text, i, j, offset, blocksize, mi, chunked, framing_hdr, c
             headers[nm] = "chunked"
             caller_framing = "te"
         try:
-            # every argument is a realised (solver-enumerated) concrete value: run the request outside the tracer
-            N._untraced(conn.request)(method, "/p", body=body, headers=headers, chunked=chunked)
+            conn.request(method, "/p", body=body, headers=headers, chunked=chunked)
         except (TypeError, ValueError, HTTPError) as e:
             return _fail("request(%s, body=%s %r) raised %r" % (method, KINDS[kind], text, e))
         tx = b"".join(s.tx for s in netw.socks)
@@ -204,17 +199,47 @@ def _frame_body(kind, text, i, j, offset, blocksize, mi, chunked, framing_hdr, c
         N.uninstall()
 
 
-def c11_frame(kind: int, text: str, i: int, j: int, offset: int, blocksize: int, mi: int, chunked: bool, framing_hdr: int,
-              cv: int) -> bool:
+def strings_upto(alphabet, n):
+    out = [""]
+    layer = [""]
+    for _ in range(n):
+        layer = [a + ch for a in layer for ch in alphabet]
+        out.extend(layer)
+    return out
+
+
+def frame_dims(part):
+    """(kind, text, cut points, offset, blocksize) shapes x method x (chunked flag, caller framing header, casing)."""
+    shapes = []
+    for kind in part["kinds"]:
+        texts = strings_upto(part["alpha"], part["maxlen"]) if kind != 0 else [""]
+        for text in texts:
+            cuts = [(i, j) for i in range(len(text) + 1) for j in range(i, len(text) + 1)] if kind in (9, 10, 14, 15) else [(0, 0)]
+            offs = range(len(text) + 1) if kind in (5, 6) else [0]
+            blocks = range(1, part["maxblock"] + 1) if kind in (5, 6, 7, 8, 13) else [1]
+            for (i, j) in cuts:
+                for off in offs:
+                    for bs in blocks:
+                        shapes.append((kind, text, i, j, off, bs))
+    framing = [(False, 0, 0), (True, 0, 0)]
+    if part["hdrs"] == "few":
+        framing += [(False, 1, 0), (False, 1, 2), (False, 2, 0), (True, 2, 1)]
+    elif part["hdrs"]:
+        framing += [(False, 1, cv) for cv in range(3)] + [(ch, 2, cv) for ch in (False, True) for cv in range(3)]
+    return [shapes, part["methods"], framing]
+
+
+def _frame_point(idx):
+    (kind, text, i, j, off, bs), mi, (chunked, fh, cv) = decode_point(idx, frame_dims(P))
+    return N._untraced(_frame_body)(kind, text, i, j, off, bs, mi, chunked, fh, cv)
+
+
+def c11_frame(idx: int) -> bool:
     """
-    pre: kind in P.kinds and len(text) <= P.maxlen and all(ch in P.alpha for ch in text)
-    pre: 0 <= i <= j <= len(text) and (kind in (9, 10, 14, 15) or (i == 0 and j == 0))
-    pre: 0 <= offset <= len(text) and (kind in (5, 6) or offset == 0) and 1 <= blocksize <= P.maxblock and (kind in (5, 6, 7, 8, 13) or blocksize == 1)
-    pre: not (chunked and framing_hdr == 1)
-    pre: mi in P.methods and 0 <= framing_hdr <= 2 and 0 <= cv <= 2 and (framing_hdr > 0 or cv == 0) and (framing_hdr == 0 or P.hdrs)
+    pre: 0 <= idx < P.n
     post: _
     """
-    return run(_frame_body, kind, text, i, j, offset, blocksize, mi, chunked, framing_hdr, cv)
+    return run(_frame_point, idx)
 
 
 # ---- re-sending ------------------------------------------------------------------------------------------------------------
@@ -262,10 +287,8 @@ class ScriptPeer(N.BaseHandler):
 
 
 def _resend_body(front, kind, hi, text, offset):
-    front, kind, hi, offset = [concretize(v) for v in (front, kind, hi, offset)]
-    text = concretize(text)
     hist = HISTORIES[hi]
-    body, want = N._untraced(make_body)(kind, text, 1, 2, offset)
+    body, want = make_body(kind, text, 1, 2, offset)
     peer = ScriptPeer(hist)
     N.install(peer)
     E.install_clock()
@@ -275,9 +298,9 @@ def _resend_body(front, kind, hi, text, offset):
         resp = None
         try:
             if front == 0:
-                resp = N._untraced(HTTPConnectionPool("h", 80).urlopen)("PUT", "/p", body=body, retries=retries, assert_same_host=False)
+                resp = HTTPConnectionPool("h", 80).urlopen("PUT", "/p", body=body, retries=retries, assert_same_host=False)
             else:
-                resp = N._untraced(PoolManager().urlopen)("PUT", "http://h/p", body=body, retries=retries)
+                resp = PoolManager().urlopen("PUT", "http://h/p", body=body, retries=retries)
         except HTTPError as e:
             exc = e
         attempts = [x for x in peer.log if x[0] != "parse-error"]
@@ -320,40 +343,55 @@ def _resend_body(front, kind, hi, text, offset):
         E.uninstall_clock()
 
 
-def c11_resend(front: int, kind: int, hi: int, text: str, offset: int) -> bool:
+def resend_dims(part):
+    shapes = []
+    for kind in part["kinds"]:
+        for text in strings_upto(RALPHA, part["maxlen"])[1:]:
+            for off in ((0, 1) if kind in (5, 6) else (0,)):
+                shapes.append((kind, text, off))
+    hists = [h for h in part["hists"] if not (part["fronts"] == [0] and h == 7)]
+    return [part["fronts"], hists, shapes]
+
+
+def _resend_point(idx):
+    front, hi, (kind, text, off) = decode_point(idx, resend_dims(P))
+    if front == 0 and hi == 7:
+        return True
+    return N._untraced(_resend_body)(front, kind, hi, text, off)
+
+
+def c11_resend(idx: int) -> bool:
     """
-    pre: front in P.fronts and kind in P.kinds and hi in P.hists and (front == 1 or hi != 7)
-    pre: 1 <= len(text) <= P.maxlen and all(ch in RALPHA for ch in text)
-    pre: 0 <= offset <= 1 and (kind in (5, 6) or offset == 0)
+    pre: 0 <= idx < P.n
     post: _
     """
-    return run(_resend_body, front, kind, hi, text, offset)
+    return run(_resend_point, idx)
+
+
+DIMS = {"c11_frame": frame_dims, "c11_resend": resend_dims}
 
 
 def JOBS(tier):
     quick = tier == "quick"
-    t = 150 if quick else 900
+    t = 170 if quick else 900
     jobs = []
     for kind in range(len(KINDS)):
-        rich = kind in (0, 1, 5, 9)
-        jobs.append({"func": "c11_frame", "timeout": t, "path_timeout": 60,
-                     "part": {"kinds": [kind], "maxlen": 2 if quick else 3, "maxblock": 2 if quick else 4,
+        jobs.append({"func": "c11_frame", "timeout": t, "path_timeout": 60, "samples": 1,
+                     "part": {"kinds": [kind], "maxlen": 2 if quick else 3, "maxblock": 3 if quick else 4,
                               "alpha": "a\n\u20ac" if quick else ALPHABET,
-                              "methods": list(range(len(METHODS))) if (kind == 0 or not quick) else [0, 6],
-                              "hdrs": rich or not quick}})
+                              "methods": list(range(len(METHODS))) if (kind == 0 or not quick) else [0, 6, 9],
+                              "hdrs": "few" if quick else True}})
     for front in (0, 1):
-        for hi in range(len(HISTORIES)):
-            if front == 0 and hi == 7:
-                continue
-            jobs.append({"func": "c11_resend", "timeout": t, "path_timeout": 90,
-                         "part": {"fronts": [front], "hists": [hi], "kinds": list(range(len(KINDS))), "maxlen": 1 if quick else 2}})
+        jobs.append({"func": "c11_resend", "timeout": t, "path_timeout": 90, "samples": 1,
+                     "part": {"fronts": [front], "hists": list(range(len(HISTORIES))), "kinds": list(range(len(KINDS))),
+                              "maxlen": 1 if quick else 2}})
     return jobs
 
 
 EVIDENCE = {
     "bounds": {"quick": "16 body kinds (None, bytes, str, bytearray, memoryview, BytesIO, StringIO, read-only file, file whose tell fails, "
                         "list/tuple/generator of chunks, list of str chunks, empty list, array('H'), raw short-reading stream) x content of "
-                        "<= 2 characters over {a, LF, euro} x chunk cut points x start offset x blocksize 1..2 x {GET, POST} "
+                        "<= 2 characters over {a, LF, euro} x chunk cut points x start offset x blocksize 1..3 x {GET, POST, post} "
                         "(all 11 methods for body-less) x chunked flag x caller framing header in 3 casings; re-sending: 10 histories x 16 "
                         "kinds x pool / PoolManager",
                "thorough": "content <= 3 characters, all 11 methods, blocksize <= 4"},
